@@ -455,7 +455,17 @@ func TestC12L2(t *testing.T) {
 				rotated := false
 				var desc []string
 				for k := 0; k < n; k++ {
-					switch rapid.SampledFrom([]string{"params", "params-rotate", "spend", "spend-too-much", "send-by-admin", "send-by-other", "remove-unknown", "send-by-authority", "send-by-authority"}).Draw(rt, "inner") {
+					switch rapid.SampledFrom([]string{"params", "params-rotate", "spend", "spend-too-much", "send-by-admin", "send-by-other", "remove-unknown", "send-by-authority", "send-by-authority", "withdraw-by-user", "deposit-by-executor"}).Draw(rt, "inner") {
+					case "withdraw-by-user":
+						// a message of this module whose signer is a user: the admin must not be able to act in their name
+						inner = append(inner, opchildtypes.NewMsgInitiateTokenWithdrawal(users[4].Str, users[5].Str, coinOf("stake", 1)))
+						allAuthority = false
+						desc = append(desc, "withdraw-by-user")
+					case "deposit-by-executor":
+						// a message of this module whose signer is a bridge executor
+						inner = append(inner, opchildtypes.NewMsgFinalizeTokenDeposit(executors[0], users[0].Str, users[5].Str, coinOf("l2/minted-by-admin", 1000), nextL1, 1, "uinit", nil))
+						allAuthority = false
+						desc = append(desc, "deposit-by-executor")
 					case "params":
 						inner = append(inner, opchildtypes.NewMsgUpdateParams(authority, mkParams(newAdmin, newExecs)))
 						desc = append(desc, "params")
